@@ -292,6 +292,9 @@ class CanonOptions:
     drop_calls: set = field(default_factory=set)          # expression-statement calls to ignore (e.g. print)
 
 
+MUTATOR_METHODS = {"append", "extend", "insert", "pop", "popleft", "appendleft", "remove", "sort", "clear", "update",
+                   "add", "setdefault", "discard", "reverse", "heappush"}
+
 PAIR_FIELDS = {
     "Point": ("x", "y"),
     "Shape": ("w", "h"),
@@ -407,6 +410,32 @@ class Canon:
                         bind(n.target.id, False)
 
         visit(body_without_docstring(self.fi.node), False)
+        # locals with object identity (mutated through a method, a store or a heap primitive) are never inlined
+        mutated: set[str] = set()
+
+        def root(n: ast.AST) -> Optional[str]:
+            while isinstance(n, (ast.Attribute, ast.Subscript)):
+                n = n.value
+            return n.id if isinstance(n, ast.Name) else None
+        for n in ast.walk(self.fi.node):
+            if isinstance(n, (ast.Attribute, ast.Subscript)) and isinstance(n.ctx, (ast.Store, ast.Del)):
+                r = root(n.value)
+                if r:
+                    mutated.add(r)
+            elif isinstance(n, ast.AugAssign) and isinstance(n.target, (ast.Attribute, ast.Subscript)):
+                r = root(n.target.value)
+                if r:
+                    mutated.add(r)
+            elif isinstance(n, ast.Call) and isinstance(n.func, ast.Attribute):
+                if n.func.attr in MUTATOR_METHODS and isinstance(n.func.value, ast.Name):
+                    mutated.add(n.func.value.id)
+                if isinstance(n.func.value, ast.Name) and n.func.value.id == "heapq" and n.args \
+                        and isinstance(n.args[0], ast.Name):
+                    mutated.add(n.args[0].id)
+        self.mutated = mutated
+        for name in mutated:
+            if name in simple:
+                simple[name] = False
         # a parameter that is re-assigned is multi-def
         self.inlinable: set[str] = set()
         self.varids: dict[str, S] = {}
